@@ -613,6 +613,101 @@ func checkEvents(got []string) {
 	}
 }
 
+// listingVsHistory: once everything has settled, the listing must be explained
+// by what happened. (1) An identifier whose unregistration was acknowledged is
+// not listed: ids are never handed out twice, so whichever of staging /
+// ready / unregister came first, an acknowledged unregister leaves nothing
+// behind (unregister while staged makes the later ready fail; unregister after
+// ready removes it). (2) An identifier is listed exactly when it has one more
+// serviceAdded than serviceRemoved event.
+func listingVsHistory(p directory.ServiceDirectoryProxy, ev *eventLog, unregistered map[uint32]bool) {
+	vrt.Quiesce()
+	l, err := p.Services()
+	if err != nil {
+		vrt.Failf("listing-failed", "%v", err)
+		return
+	}
+	listed := map[uint32]string{}
+	for _, i := range l {
+		listed[i.ServiceId] = i.Name
+	}
+	for id := range unregistered {
+		if name, ok := listed[id]; ok {
+			vrt.Failf("unregistered-service-listed", "unregisterService(%d) was acknowledged, yet service %d (%s) is listed once everything has settled: %s; events %v", id, id, name, listing(l), ev.got)
+		}
+	}
+	balance := map[uint32]int{}
+	for _, e := range ev.got {
+		var id uint32
+		var rest string
+		if n, _ := fmt.Sscanf(strings.NewReplacer("(", " ", ",", " ").Replace(e), "added %d %s", &id, &rest); n >= 1 {
+			balance[id]++
+		} else if n, _ := fmt.Sscanf(strings.NewReplacer("(", " ", ",", " ").Replace(e), "removed %d %s", &id, &rest); n >= 1 {
+			balance[id]--
+		}
+	}
+	for id, name := range listed {
+		if id != 1 && balance[id] != 1 {
+			vrt.Failf("listing-vs-events", "service %d (%s) is listed but its events are %v", id, name, ev.got)
+		}
+	}
+	for id, b := range balance {
+		if _, ok := listed[id]; !ok && b != 0 {
+			vrt.Failf("listing-vs-events", "service %d is not listed but has %+d added/removed events: %v", id, b, ev.got)
+		}
+	}
+}
+
+// readyRace: an identifier that is staged (reserved, not ready yet) is made
+// ready by the hosting server (local path: Namespace.Enable inside
+// Server.NewService) while a remote client unregisters it / makes it ready too.
+func readyRace(remoteReady bool) func() {
+	return func() {
+		d := startDirectory()
+		p1, p2 := d.client(), d.client()
+		ev := d.watch()
+		vrt.Explore()
+		var localErr, remErr error
+		var svc bus.Service
+		unregistered := map[uint32]bool{}
+		// the registry holds the directory (1) only: the local service gets 2
+		w1 := vrt.GoWorker("local", func() {
+			svc, localErr = d.srv.NewService("c", probe.ProbeObject(probe.New("local")))
+		})
+		w2 := vrt.GoWorker("remote", func() {
+			if remoteReady {
+				remErr = p2.ServiceReady(2)
+			} else {
+				remErr = p2.UnregisterService(2)
+				if remErr == nil {
+					unregistered[2] = true
+				}
+			}
+		})
+		vrt.Quiesce()
+		fx.Settle(w1, w2)
+		ev.wireOrder()
+		checkEvents(ev.got)
+		if localErr == nil && svc != nil && svc.ServiceID() != 2 {
+			vrt.Failf("harness", "the local service got identifier %d, not 2", svc.ServiceID())
+		}
+		listingVsHistory(p1, ev, unregistered)
+		if remoteReady && localErr == nil && remErr == nil {
+			// serviceReady(2) succeeds once: the second one finds nothing staged
+			vrt.Failf("ready-twice", "identifier 2 was made ready twice: by the hosting server and by the remote client; events %v", ev.got)
+		}
+		switch {
+		case localErr == nil && remErr == nil:
+			vrt.Flag("both-succeeded")
+		case localErr != nil && remErr == nil:
+			vrt.Flag("remote-won")
+		case localErr == nil && remErr != nil:
+			vrt.Flag("local-only")
+		}
+		vrt.Observe("readyRace remoteReady=%v local=%v remote=%v events=%v", remoteReady, localErr != nil, remErr != nil, ev.got)
+	}
+}
+
 // localRemote: the hosting process registers services locally (NewService /
 // Terminate, which bypass the mailbox) while a remote client registers too.
 func localRemote(fine bool, snipes ...bool) func() {
@@ -658,6 +753,7 @@ func localRemote(fine bool, snipes ...bool) func() {
 		ev.wireOrder()
 		if snipe {
 			checkEvents(ev.got)
+			listingVsHistory(p1, ev, sniped)
 			vrt.Observe("snipe local=%s sniped=%v", localName, sniped)
 			return
 		}
@@ -801,6 +897,10 @@ func init() {
 		Doc: "remote register+ready of a || local Server.NewService(a|c) + Terminate", MustFlag: []string{"both-registered"}})
 	reg.Register(&reg.Scenario{Property: "C15", Name: "local-vs-remote-unregister", Body: localRemote(true, true), Quick: 2, Thorough: 3,
 		Doc: "as local-vs-remote (statement level) while another remote client unregisters identifiers 2 and 3: no serviceRemoved event precedes the serviceAdded event of the same identifier on the subscriber's connection, each at most once"})
+	reg.Register(&reg.Scenario{Property: "C15", Name: "staged-local-ready-vs-remote-unregister", Body: readyRace(false), Quick: 2, Thorough: 3,
+		Doc: "the hosting server registers a service (Reserve, activation, Enable: local path) while a remote client unregisters the identifier it gets: an acknowledged unregistration leaves nothing listed, listing and events agree", MustFlag: []string{"both-succeeded", "local-only"}})
+	reg.Register(&reg.Scenario{Property: "C15", Name: "staged-local-ready-vs-remote-ready", Body: readyRace(true), Quick: 2, Thorough: 3,
+		Doc: "same with a remote serviceReady of that identifier: it becomes ready once, one serviceAdded event", MustFlag: []string{"local-only"}})
 	reg.Register(&reg.Scenario{Property: "C15", Name: "local-vs-remote-statement-level", Body: localRemote(true), Quick: 1, Thorough: 2,
 		Doc: "same with bus/directory/directory.go interleaved at statement level (the local path bypasses the mailbox)"})
 }
